@@ -354,6 +354,10 @@ def op_gen_coords(op, root, opdir):
 
 
 # ----------------------------------------------------------------------------- round trip (C11)
+def exp_first_type(cap):
+    return cap.molecule["atoms"][0]["atype"] if cap.molecule and cap.molecule["atoms"] else "P0"
+
+
 def roundtrip_check(op, root, cap, atypes, requested_graph, log_msgs):
     """reads the written .itp back with polyply's own topology reader and compares it with the
     molecule handed to the writer.  returns list of (clause, msg)"""
@@ -367,14 +371,25 @@ def roundtrip_check(op, root, cap, atypes, requested_graph, log_msgs):
         return [("written", "gen_params returned without handing a molecule to the writer")]
     tdir = tempfile.mkdtemp(prefix="rt_", dir=os.path.join(root, "tmp"))
     name = op.get("name", "POL")
+    decoy = bool(op.get("read_with_decoy_in_cwd"))
     top = ["[ defaults ]", "1 1 no 1.0 1.0", "[ atomtypes ]"]
     seen = set()
     for a in cap.molecule["atoms"]:
         if a["atype"] not in seen:
             seen.add(a["atype"])
             top.append(f"{a['atype']} 45.0 0.0 A 0.3 1.0")
-    top += [f'#include "{os.path.abspath(out)}"', "[ system ]", "rt", "[ molecules ]", f"{name} 1"]
-    tp = os.path.join(tdir, "rt.top")
+    old_cwd = os.getcwd()
+    if decoy:
+        # the wrapper sits next to the generated file and includes it by its bare name; the process works in another
+        # directory that holds a different file of the same name (a left-over of an earlier run)
+        top += [f'#include "{os.path.basename(out)}"', "[ system ]", "rt", "[ molecules ]", f"{name} 1"]
+        tp = os.path.join(os.path.dirname(os.path.abspath(out)), "rt_wrapper.top")
+        with open(os.path.join(tdir, os.path.basename(out)), "w") as fh:
+            fh.write(f"[ moleculetype ]\n{name} 1\n[ atoms ]\n1 {exp_first_type(cap)} 1 DEC DC 1 0.0 1.0\n")
+        os.chdir(tdir)
+    else:
+        top += [f'#include "{os.path.abspath(out)}"', "[ system ]", "rt", "[ molecules ]", f"{name} 1"]
+        tp = os.path.join(tdir, "rt.top")
     with open(tp, "w") as fh:
         fh.write("\n".join(top) + "\n")
     try:
@@ -382,6 +397,12 @@ def roundtrip_check(op, root, cap, atypes, requested_graph, log_msgs):
     except Exception as err:
         return [("atoms", f"polyply's topology reader cannot read the generated file: {type(err).__name__}: {err}")]
     finally:
+        os.chdir(old_cwd)
+        if decoy:
+            try:
+                os.remove(tp)
+            except OSError:
+                pass
         shutil.rmtree(tdir, ignore_errors=True)
     mm = topo.molecules[0]
     mol = mm.molecule
@@ -397,6 +418,9 @@ def roundtrip_check(op, root, cap, atypes, requested_graph, log_msgs):
         for key in ("charge", "mass"):
             ev, gv = e.get(key), g.get(key)
             if ev is None:
+                if gv is not None and key == "charge":
+                    viols.append(("atoms", f"atom {i + 1}: built without a {key} but read back with {key} {gv!r}"))
+                    break
                 continue
             if gv is None or abs(float(gv) - float(ev)) > 1e-6:
                 viols.append(("atoms", f"atom {i + 1}: {key} read back as {gv!r}, built {ev!r}"))
